@@ -190,7 +190,7 @@ def possible (c : ACase) : List (Resp × List LogRec) :=
   let env : Env := { path := c.path, stText := stTextOf c.stTab }
   let cfg := mkCfg c.opts
   (modelAnswers c).map fun ans => (canonResp (failH c.preCT c.abortFirst c.ctxDone env cfg ans c.wire c.pos c.call),
-    [failLog env cfg ans c.call])
+    failLogs env cfg ans c.wire c.call)
 
 def stepA (id : String) (inp obs : List String) : String :=
   match runP (pACase inp.length) inp, runP (pResp obs.length) obs with
